@@ -67,7 +67,38 @@ fn exact_rate(sr: u32) -> bool {
 fn gen_case(seed: u64, index: u64, tier: Tier) -> Case {
 	let mut rng = Rng::new(seed);
 	let stream = match index % 8 {
-		0 | 1 => Stream::Load {
+		1 => {
+			// systematic header corruption: (encoding x mono / stereo) x every bit of every size and
+			// format field of the RIFF header (plain header first, then the extensible one; loaded
+			// first, then streamed): a corrupted header describes a different - possibly absurd -
+			// file; whatever it describes, loading it returns
+			let code = index / 8;
+			let enc = ENCS[(code % 6) as usize];
+			let channels = 1 + ((code / 6) % 2) as u16;
+			let round = code / 12;
+			// 448 rounds per variant (the extensible header has 56 such bytes): plain loaded (covered
+			// completely by the quick tier), extensible loaded, plain streamed, extensible streamed
+			let variant = (round / 448) % 4;
+			let extensible = variant % 2 == 1;
+			let fields: Vec<usize> = if extensible { (4..8).chain(16..68).collect() } else { (4..8).chain(16..44).collect() };
+			let j = (round % 448) as usize % (fields.len() * 8);
+			let (byte, bit) = (fields[j / 8], (j % 8) as u8);
+			let byte = if extensible && (byte == 22 || byte == 23) && crate::known::is_open("C18-symphonia-extensible-channel-count") { 24 } else { byte };
+			Stream::Fault {
+				spec: WavSpec {
+					enc,
+					channels,
+					sample_rate: 44_100,
+					frames: 12,
+					seed: rng.next_u64(),
+					indexed: false,
+					extensible,
+				},
+				fault: Fault::Flip(byte, bit),
+				streaming: variant >= 2,
+			}
+		}
+		0 => Stream::Load {
 			spec: WavSpec {
 				enc: *rng.pick(&ENCS),
 				channels: *rng.pick(&[1u16, 1, 2, 2, 3, 4]),
@@ -664,7 +695,7 @@ impl Check for C18 {
 		CheckInfo {
 			id: "C18",
 			level: "fault_enumeration",
-			rule: "streams by case index: load (2/8) = PCM WAV from the harness's own encoder (u8, s16, s24, s32, f32, f64; 1..4 channels; plain or WAVE_FORMAT_EXTENSIBLE header with the default channel mask (mono = front centre); 7 rates; 0..6000 frames; seeded samples) loaded and compared with the independent decode; fault (4/8) = systematic (encoding x mono/stereo x {truncate at byte k, flip a bit of byte k, I/O error at byte k, EINTR on the k-th read, short reads of 1..9 bytes, unseekable} x every byte offset k of a 12-frame file), loaded or streamed; stream (1/8) = 17000..40000-frame index-coded WAV streamed through the real decoder from a seeded start position with up to 2 seeks, compared with the loaded frames by decoded index; asset (1/8) = the shipped .wav / .ogg files loaded, streamed, truncated, bit-flipped and read in short pieces; non-trivial = frames were compared or a fault was applied; distinct = hash of (encoding, channels, size class, fault kind and offset / asset and fault bucket)",
+			rule: "streams by case index: header (1/8) = systematic (encoding x mono/stereo) x every bit of every size / format field of the RIFF header (plain, then extensible; loaded, then streamed): no panic, no hang; load (1/8) = PCM WAV from the harness's own encoder (u8, s16, s24, s32, f32, f64; 1..4 channels; plain or WAVE_FORMAT_EXTENSIBLE header with the default channel mask (mono = front centre); 7 rates; 0..6000 frames; seeded samples) loaded and compared with the independent decode; fault (4/8) = systematic (encoding x mono/stereo x {truncate at byte k, flip a bit of byte k, I/O error at byte k, EINTR on the k-th read, short reads of 1..9 bytes, unseekable} x every byte offset k of a 12-frame file), loaded or streamed; stream (1/8) = 17000..40000-frame index-coded WAV streamed through the real decoder from a seeded start position with up to 2 seeks, compared with the loaded frames by decoded index; asset (1/8) = the shipped .wav / .ogg files loaded, streamed, truncated, bit-flipped and read in short pieces; non-trivial = frames were compared or a fault was applied; distinct = hash of (encoding, channels, size class, fault kind and offset / asset and fault bucket)",
 			assumptions: vec![
 				"for a bit flip inside the RIFF header only 'no panic, no hang' is demanded (the header then describes a different, possibly valid file)".into(),
 				"streaming is compared at rate 1 with device rate == file rate, for rates where sr * (1/sr) == 1.0 (see the C04 known finding)".into(),
@@ -680,8 +711,8 @@ impl Check for C18 {
 	}
 	fn num_cases(&self, tier: Tier) -> u64 {
 		match tier {
-			Tier::Quick => 16_000,
-			Tier::Thorough => 160_000,
+			Tier::Quick => 26_000,
+			Tier::Thorough => 200_000,
 		}
 	}
 	fn case(&self, tier: Tier, seed: u64, index: u64) -> Json {
